@@ -107,6 +107,38 @@ def gen_tree(rng, tname, exotic=0.0):
     return tree
 
 
+def variant_tree(rng, tree, tname):
+    """A sibling checkout of the same project: same root package and mostly the same modules, a
+    few files gone, a few new ones.  The same rule objects are meaningful on both, patterns match
+    different module sets."""
+    t = Tree(tname, tree.root)
+    t.dirs = list(tree.dirs)
+    t.pkg_depth = dict(tree.pkg_depth)
+    t.files = dict(tree.files)
+    t.pyfiles = list(tree.pyfiles)
+    plain = [f for f in t.pyfiles if not f.endswith("__init__.py") and "__pycache__" not in f]
+    rng.shuffle(plain)
+    for f in plain[: rng.randint(1, max(1, len(plain) // 3))]:
+        del t.files[f]
+        t.pyfiles.remove(f)
+    mods = [m for m in tree.all_modules() if "__pycache__" not in m and not m.endswith("__init__")]
+    for _ in range(rng.randint(1, 4)):
+        parent = pick(rng, sorted(t.pkg_depth))
+        name = pick(rng, NAMES)
+        existing = t.children(parent)
+        if name in existing or (name + ".py") in existing:
+            continue
+        f = f"{parent}/{name}.py"
+        lines = []
+        for _ in range(rng.randint(0, 2)):
+            tgt = pick(rng, mods)
+            lines.append(_wrap(rng, f"import {tgt}" if rng.random() < 0.5 else f"from {tgt} import thing"))
+        t.files[f] = "\n".join(lines) + ("\n" if lines else "")
+        t.pyfiles.append(f)
+    t.pyfiles.sort()
+    return t
+
+
 def _wrap(rng, stmt):
     r = rng.random()
     if r < 0.68:
@@ -306,7 +338,7 @@ def unrelated(a, b):
     return not (a == b or a.startswith(b + ".") or b.startswith(a + "."))
 
 
-def gen_arch(rng, modules, all_named, universe=()):
+def gen_arch(rng, modules, all_named, universe=(), p_regex=0.35):
     """[(layer, ("mods",[..]) | ("regex", r))] over pairwise unrelated modules / disjoint regexes."""
     pool = [m for m in modules if "." in m and not m.endswith("__init__")]
     rng.shuffle(pool)
@@ -323,10 +355,21 @@ def gen_arch(rng, modules, all_named, universe=()):
     for li in range(nlayers):
         if i >= len(chosen):
             break
-        if not all_named and rng.random() < 0.35:
+        if not all_named and rng.random() < p_regex and rng.random() < 0.4 and len(chosen) - i >= 2:
+            # one pattern for a group of unrelated modules: what it matches differs between scan
+            # configurations in more than depth (an excluded member simply drops out)
+            k = rng.randint(2, min(3, len(chosen) - i))
+            group = chosen[i:i + k]
+            i += k
+            tail = rng.choice(["$", "(\\..*)?$"])
+            rx = "^(" + "|".join(g.replace(".", "\\.") for g in group) + ")" + tail
+            layers.append((names[li], ("regex", rx)))
+        elif not all_named and rng.random() < p_regex:
             m = chosen[i]
             i += 1
             tail = rng.choice(["$", "(\\..*)?$", ".*"])
+            if any(o.startswith(m + ".") for o in modules) and rng.random() < 0.4:
+                tail = "\\.\\w+$"  # the direct children of a package, whatever they are called
             if tail == ".*" and any(o.startswith(m) and not (o == m or o.startswith(m + "."))
                                     for o in universe):
                 # the open form would also match a sibling whose name merely starts with m
